@@ -88,6 +88,15 @@ class _Mixin:
             env.log.append(("check", idx, "unknown(injected)"))
             return z3.unknown
         r = super().check(*a)
+        # under the controlled solver, time-outs are injected by the environment (unknown_at / virtual clock), never
+        # produced by the machine: an `unknown` that real z3 gives on these small ground problems is a spurious
+        # cancellation (timer thread firing late on an overloaded machine) and the check is simply asked again
+        tries = 0
+        while r == z3.unknown and tries < 3:
+            tries += 1
+            r = super().check(*a)
+        if tries:
+            env.real_unknowns = getattr(env, "real_unknowns", 0) + tries
         env.log.append(("check", idx, str(r)))
         if r == z3.sat and env.candidates is not None and isinstance(self, _RealOptimize):
             pass  # an optimising solver returns its optimum: never steered
